@@ -25,7 +25,7 @@ NWORKERS = min(6, max(2, (os.cpu_count() or 4) // 2))
 
 
 def load_known():
-    """known-findings.json is the coordinator's; until notes/C10.findings.json is merged there, read it too"""
+    """recorded findings: the committed known-findings.json only"""
     known = {k["id"]: k for k in vlib.load_known("C10")}
     p = ""      # only the committed known-findings.json is consulted at run time
     if os.path.exists(p):
